@@ -35,7 +35,7 @@ def mc_base(**over: Any) -> Dict[str, Any]:
     base = {"Actors": Raw("<- A2"), "Role": Raw("<- Role_C2"), "Idx": Raw("<- Idx_2"), "Handle": Raw("<- Sep_2"),
             "Prog": Raw("<- Prog_2App"), "Backend": "local", "LockKind": "excl", "ClockMode": "strict",
             "MaxClock": 6, "MaxAttempts": 2, "InitSnaps": 2, "FixStamp": True, "FixEtag": False, "FixGCOrder": False, "FixGCFail": False,
-            "FixInterrupt": False, "FaultKinds": set(), "FaultBudget": 0, "Grace": 0, "OldFiles": False, "MarkerTimeout": 1000}
+            "FixInterrupt": False, "FaultKinds": set(), "FaultBudget": 0, "Grace": 0, "OldFiles": False, "Lease": 2, "MarkerTimeout": 1000}
     base.update(over)
     return base
 
@@ -85,7 +85,7 @@ def scenarios(quick: bool) -> List[Scenario]:
     return s
 
 
-def conformance(ctx: Ctx, scns: List[Scenario], n_random: int, n_double: int, stride: int, prop: str = "C01") -> None:
+def conformance(ctx: Ctx, scns: List[Scenario], n_random: int, n_double: int, stride: int, prop: str = "C01", extra_jobs: Any = None) -> None:
     """Execute the schedules of every scenario on the real library, then validate all traces with TLC
     (batches of <= 120 traces per JVM, several JVMs at a time)."""
     from concurrent.futures import ThreadPoolExecutor
@@ -97,6 +97,8 @@ def conformance(ctx: Ctx, scns: List[Scenario], n_random: int, n_double: int, st
         jobs += [("list", s_) for s_ in l1.double_pause_schedules(scn, steps, rng(ctx.seed, scn.name, "dbl"), n_double)]
         env_p = {"tick": 0.05} if scn.clock_mode == "coarse" else None
         jobs += [("random", (ctx.seed * 100003 + i, 0.2, env_p)) for i in range(n_random)]
+        if extra_jobs is not None:
+            jobs += extra_jobs(scn, steps)
         traces = l1.run_many(scn, jobs)
         for t in traces:
             if t.get("harness_error"):
